@@ -50,6 +50,9 @@ def nvals(v):
 
 def cut_offsets(rnd, data, segs_info, exhaustive):
     n = len(data)
+    if len(segs_info) > 50:
+        # long files: every offset of the last two segments and the boundary before them
+        return list(range(max(4, segs_info[-2]["pos"] - 1), n + 1))
     if exhaustive or n <= 260:
         return list(range(4, n + 1))
     ks = set([4, 5, 27, 28, 29, n, n - 1])
@@ -204,6 +207,13 @@ def templates(rnd):
                 break
     if best is not None:
         out.append(("daqmx multi-buffer", best))
+    # a size class: more than 100 segments (the reader compares per-channel offset arrays in blocks of 100 entries); only the tail is cut
+    k = rnd.randint(101, 105)
+    objs = [chan("a", 2, 2), chan("b", 2, 2)]
+    long_ = [seg(objs, [[values(o) for o in objs]], big=False)]
+    for _ in range(k - 1):
+        long_.append(seg([], [[values(o) for o in objs]], big=False, hasMeta=False, newList=False))
+    out.append(("more than 100 segments (tail cuts)", long_))
     return out
 
 
